@@ -49,12 +49,17 @@ fn domains(thorough: bool) -> Vec<Domain> {
     let mut strs = vec![s(""), s("a"), s("b"), s("ab"), s("B")];
     let mut t2 = vec![tup(vec![i(0), i(0)]), tup(vec![i(0), i(1)]), tup(vec![i(1), i(0)]), tup(vec![i(1), i(1)]), tup(vec![i(-1), i(2)]), tup(vec![i(2), i(-1)])];
     let mut lists = vec![Expr::List(vec![i(1)]), Expr::List(vec![i(1), i(2)]), Expr::List(vec![i(2), i(1)]), Expr::List(vec![i(1), i(1)]), Expr::List(vec![i(2)]), Expr::List(vec![i(1), i(2), i(3)])];
+    ints.extend(vec![i(-7), i(3), i(100), int(9223372036854775807), i(-2)]);
+    floats.extend(vec![f(-0.5), f(3.25), f(100.0), f(1e10), f(0.25)]);
+    strs.extend(vec![s("aa"), s("ba"), s("é"), s(" "), s("abc")]);
+    t2.extend(vec![tup(vec![i(2), i(2)]), tup(vec![i(0), i(-1)]), tup(vec![i(7), i(0)])]);
+    lists.extend(vec![Expr::List(vec![i(3), i(2), i(1)]), Expr::List(vec![i(0)])]);
     if thorough {
-        ints.extend(vec![i(-7), i(3), i(100), int(9223372036854775807), i(-2)]);
-        floats.extend(vec![f(-0.5), f(3.25), f(100.0), f(1e10), f(0.25)]);
-        strs.extend(vec![s("aa"), s("ba"), s("é"), s(" "), s("abc")]);
-        t2.extend(vec![tup(vec![i(2), i(2)]), tup(vec![i(0), i(-1)]), tup(vec![i(7), i(0)])]);
-        lists.extend(vec![Expr::List(vec![i(3), i(2), i(1)]), Expr::List(vec![i(0)])]);
+        ints.extend(vec![i(4), i(5), i(-100), i(1000000), i(12345678901)]);
+        floats.extend(vec![f(-100.5), f(0.125), f(7.75), f(1e-3), f(65536.0)]);
+        strs.extend(vec![s("a "), s("A"), s("z"), s("éa"), s("0")]);
+        t2.extend(vec![tup(vec![i(3), i(3)]), tup(vec![i(-2), i(-2)]), tup(vec![i(100), i(-100)])]);
+        lists.extend(vec![Expr::List(vec![i(1), i(2), i(3), i(4)]), Expr::List(vec![i(-1), i(-1)])]);
     }
     let t1 = vec![tup(vec![i(0)]), tup(vec![i(1)]), tup(vec![i(-1)])];
     let t0 = vec![tup(vec![]), tup(vec![])];
@@ -67,6 +72,20 @@ fn domains(thorough: bool) -> Vec<Domain> {
         tup(vec![tup(vec![i(1), i(0)]), i(0)]),
         tup(vec![tup(vec![i(0), i(0)]), i(2)]),
         tup(vec![tup(vec![i(1), i(1)]), i(-1)]),
+    ];
+    let deep = vec![
+        tup(vec![tup(vec![tup(vec![i(0), i(1)]), i(2)]), i(3)]),
+        tup(vec![tup(vec![tup(vec![i(0), i(1)]), i(2)]), i(4)]),
+        tup(vec![tup(vec![tup(vec![i(0), i(2)]), i(0)]), i(0)]),
+        tup(vec![tup(vec![tup(vec![i(1), i(0)]), i(0)]), i(0)]),
+        tup(vec![tup(vec![tup(vec![i(0), i(1)]), i(2)]), i(3)]),
+    ];
+    let tuple_with_list = vec![
+        tup(vec![Expr::List(vec![i(1), i(2)]), i(1)]),
+        tup(vec![Expr::List(vec![i(1), i(2)]), i(2)]),
+        tup(vec![Expr::List(vec![i(2), i(1)]), i(1)]),
+        tup(vec![Expr::List(vec![i(1)]), i(1)]),
+        tup(vec![Expr::List(vec![i(1), i(2)]), i(1)]),
     ];
     let list_of_tuples = vec![
         Expr::List(vec![tup(vec![i(1), i(2)])]),
@@ -91,6 +110,8 @@ fn domains(thorough: bool) -> Vec<Domain> {
         Domain { name: "(float,int)", values: tf, eq: true, lt: true, le: true, arith: &[Add, Sub, Mul], negate: true },
         Domain { name: "(int,str)", values: ts, eq: true, lt: true, le: true, arith: &[Add], negate: false },
         Domain { name: "((int,int),int)", values: nested, eq: true, lt: true, le: true, arith: &[Add, Sub, Mul], negate: true },
+        Domain { name: "(((int,int),int),int)", values: deep, eq: true, lt: true, le: true, arith: &[Add, Sub, Mul], negate: true },
+        Domain { name: "([int],int)", values: tuple_with_list, eq: true, lt: false, le: false, arith: &[], negate: false },
         Domain { name: "[int]", values: lists, eq: true, lt: false, le: false, arith: &[], negate: false },
         Domain { name: "[(int,int)]", values: list_of_tuples, eq: true, lt: false, le: false, arith: &[], negate: false },
         Domain { name: "[[int]]", values: list_of_lists, eq: true, lt: false, le: false, arith: &[], negate: false },
